@@ -332,6 +332,8 @@ struct Obs {
     ee_pem: String,
     chain_pem: String,
     cli_parses: Option<bool>,
+    root_pem: String,
+    signed: Vec<u8>,
 }
 
 fn normal_path_outcome(b: &Built, ee_key: &Key, asset: &assets::Asset) -> String {
@@ -383,6 +385,8 @@ fn run_case(c: &Case, asset: &assets::Asset, with_normal_path: bool) -> Obs {
         ee_pem: b.ee.pem(),
         chain_pem,
         cli_parses: None,
+        root_pem: b.root_pem.clone(),
+        signed: Vec::new(),
     };
     let signed = match report::catch_sdk(|| sign_asset(&signer, asset.format, &asset.bytes)) {
         Ok(Ok(s)) => s,
@@ -407,6 +411,7 @@ fn run_case(c: &Case, asset: &assets::Asset, with_normal_path: bool) -> Obs {
     if with_normal_path {
         obs.normal_path = normal_path_outcome(&b, &ee_key, asset);
     }
+    obs.signed = signed;
     obs
 }
 
@@ -428,6 +433,9 @@ fn main() {
         Err(e) => run.inconclusive(format!("openssl cli unavailable for the parse sanity check: {e}")),
     }
 
+    if let Some(p) = run.replay.clone() {
+        std::process::exit(replay(&p));
+    }
     let asset = assets::tiny_assets().into_iter().find(|a| a.format == "png").expect("tiny png");
 
     // ---- case list ---------------------------------------------------------------------------
@@ -543,10 +551,17 @@ fn main() {
                 "state": state, "error": error, "failure_codes": failures, "codes": all,
                 "normal_signing_path": o.normal_path,
                 "x5chain_pem": o.chain_pem,
-                "replay": "embed x5chain with any key-matching direct COSE signer into a PNG, read with verify_trust as in mode",
+                "trust_anchor_pem": o.root_pem,
             });
+            // violation witnesses also carry the signed asset so that `--replay` can re-read it
+            let with_asset = |w: &serde_json::Value| {
+                use base64::Engine;
+                let mut w = w.clone();
+                w["signed_asset_png_b64"] = json!(base64::engine::general_purpose::STANDARD.encode(&o.signed));
+                w
+            };
             if state == "Panic" {
-                run.violation(&format!("panic-reading|{cause}"), "SDK panicked while validating", witness);
+                run.violation(&format!("panic-reading|{cause}"), "SDK panicked while validating", with_asset(&witness));
                 continue;
             }
             if state == "Err" {
@@ -563,13 +578,13 @@ fn main() {
                         run.violation(
                             &format!("accepted|{cause}"),
                             &format!("certificate violating '{rule}' ({}) read as {state}", o.name),
-                            witness,
+                            with_asset(&witness),
                         );
                     } else if cred_fail.is_empty() {
                         run.violation(
                             &format!("no-credential-code|{cause}"),
                             &format!("certificate violating '{rule}' ({}) rejected ({state}) but without any signingCredential.* failure code", o.name),
-                            witness,
+                            with_asset(&witness),
                         );
                     }
                 }
@@ -579,7 +594,7 @@ fn main() {
                         run.violation(
                             &format!("control-flagged|{cause}"),
                             &format!("conforming certificate ({}) flagged with {:?}", o.name, cred_fail),
-                            witness,
+                            with_asset(&witness),
                         );
                     } else if !accepted {
                         run.inconclusive(format!(
@@ -604,6 +619,38 @@ fn main() {
     }
     let min = if run.quick() { 150 } else { 400 };
     run.finish(min);
+}
+
+/// Re-reads the signed asset of a witness in the witness's mode and re-applies the oracle.
+fn replay(path: &std::path::Path) -> i32 {
+    use base64::Engine;
+    let v: serde_json::Value = serde_json::from_slice(&std::fs::read(path).expect("replay file")).expect("json");
+    let w = &v["witness"];
+    let asset = base64::engine::general_purpose::STANDARD
+        .decode(w["signed_asset_png_b64"].as_str().expect("witness has no signed asset"))
+        .expect("b64");
+    let settings = if w["mode"] == "with-trust" {
+        json!({"verify": {"verify_trust": true}, "trust": {"trust_anchors": w["trust_anchor_pem"]}})
+    } else {
+        json!({"verify": {"verify_trust": false}})
+    };
+    let ctx = Context::new().with_settings(settings.to_string().as_str()).expect("settings");
+    let o = report::read_bytes_catch(ctx, "png", &asset);
+    let is_rule = w["truth"].as_str().unwrap_or("").starts_with("Violates");
+    let fails = o.failure_codes();
+    let cred: Vec<&String> = fails
+        .iter()
+        .filter(|f| f.starts_with("signingCredential.") && (is_rule || f.as_str() != "signingCredential.untrusted"))
+        .collect();
+    println!("replay: case={} truth={} mode={}", w["case"], w["truth"], w["mode"]);
+    println!("replay: observed state={} failures={:?}", o.state, fails);
+    let bad = if is_rule { o.accepted() || cred.is_empty() } else { !cred.is_empty() };
+    println!("replay: {}", if bad { "oracle fires (reproduced)" } else { "oracle satisfied" });
+    if bad {
+        1
+    } else {
+        0
+    }
 }
 
 fn pki_der_of(pem: &str) -> Vec<u8> {
